@@ -684,6 +684,9 @@ class MultiFit(FitBase):
         _gof_sum = 0.0
         for _fit in self._fits:
             if self._shared_error_nodes_initialized and _fit._cost_function.is_chi2:
+                # The residuals of this fit are part of the shared cost function, its parameter constraints are not.
+                for _par_constraint in _fit.parameter_constraints:
+                    _gof_sum += _par_constraint.cost(_fit.parameter_values)
                 continue
             _gof = _fit.goodness_of_fit
             if _gof is None:
@@ -693,6 +696,8 @@ class MultiFit(FitBase):
             _gof_sum += self._shared_cost_function.goodness_of_fit(
                 *[self._nexus.get(_node_name).value for _node_name in self._shared_cost_function.arg_names]
             )
+        for _par_constraint in self.parameter_constraints:
+            _gof_sum += _par_constraint.cost(self.parameter_values)
         return _gof_sum
 
     @property
